@@ -145,7 +145,7 @@ def roundtrip_rules(R, lib, ob):
             got = tuple(getf(back, 'LocalTime', x) for x in ('hour', 'minute', 'second')) if isinstance(back, AObj) else back
             if got != (h, mi, s):
                 bad(('R1', 'LocalTime'), '%r parses back as %r' % (txt, got))
-            if tx.reads and max(tx.reads) >= need['LocalTime']:
+            if tx.reads and max(tx.reads) > need['LocalTime']:
                 bad(('R2', 'LocalTime'), 'parsing %r reads position %d, the wrapper guarantees %d characters' % (txt, max(tx.reads), need['LocalTime']))
         for (y, m, dd) in dates:
             n['LocalDate'] += 1
@@ -158,7 +158,7 @@ def roundtrip_rules(R, lib, ob):
             got = tuple(getf(back, 'LocalDate', x) for x in ('year', 'month', 'day')) if isinstance(back, AObj) else back
             if got != (y, m, dd):
                 bad(('R1', 'LocalDate'), '%r parses back as %r' % (want, got))
-            if tx.reads and max(tx.reads) >= need['LocalDate']:
+            if tx.reads and max(tx.reads) > need['LocalDate']:
                 bad(('R2', 'LocalDate'), 'parsing %r reads position %d, the wrapper guarantees %d characters' % (want, max(tx.reads), need['LocalDate']))
             for (h, mi, s) in times[1:3]:
                 n['LocalDateTime'] += 1
@@ -172,7 +172,7 @@ def roundtrip_rules(R, lib, ob):
                 got = tuple(getf(back, 'LocalDateTime', x) for x in ('year', 'month', 'day', 'hour', 'minute', 'second')) if isinstance(back, AObj) else back
                 if got != (y, m, dd, h, mi, s):
                     bad(('R1', 'LocalDateTime'), '%r parses back as %r' % (txt, got))
-                if tx.reads and max(tx.reads) >= need['LocalDateTime']:
+                if tx.reads and max(tx.reads) > need['LocalDateTime']:
                     bad(('R2', 'LocalDateTime'), 'parsing %r reads position %d, the wrapper guarantees %d characters' % (txt, max(tx.reads), need['LocalDateTime']))
         for m in offs:
             n['TimeOffset'] += 1
@@ -185,7 +185,7 @@ def roundtrip_rules(R, lib, ob):
             got = getf(back, 'TimeOffset', 'toMinutes') if isinstance(back, AObj) else back
             if got != m:
                 bad(('R3', 'TimeOffset::forOffsetStringChainable:sign'), '%r parses back as %r minutes, printed from %d' % (txt, got, m))
-            if tx.reads and max(tx.reads) >= need['TimeOffset']:
+            if tx.reads and max(tx.reads) > need['TimeOffset']:
                 bad(('R2', 'TimeOffset'), 'parsing %r reads position %d, the wrapper guarantees %d characters' % (txt, max(tx.reads), need['TimeOffset']))
         for (y, mo, dd) in dates[::3]:
             for m in (-480, -30, 0, 330, 765, -5999, 5999):
@@ -202,7 +202,7 @@ def roundtrip_rules(R, lib, ob):
                        (getf(getf(back, 'OffsetDateTime', 'timeOffset'), 'TimeOffset', 'toMinutes'),)) if isinstance(back, AObj) else back
                 if got != (y, mo, dd, 12, 34, 56, m):
                     bad(('R1', 'OffsetDateTime'), '%r parses back as %r' % (txt, got))
-                if tx.reads and max(tx.reads) >= need['OffsetDateTime']:
+                if tx.reads and max(tx.reads) > need['OffsetDateTime']:
                     bad(('R2', 'OffsetDateTime'), 'parsing %r reads position %d, the wrapper guarantees %d characters' % (txt, max(tx.reads), need['OffsetDateTime']))
                 # zoned: the same text, then the bracketed zone name, printed last
                 n['ZonedDateTime'] += 1
